@@ -29,12 +29,15 @@ EXPECTED_PROBES = ['multi-buffer', 'padding-in-row', 'digital-line', 'multi-chun
 DTYPES = list(fmt.DAQMX_CODES)
 
 
-def gen_daqmx_spec(rng, max_segments=4):
+def gen_daqmx_spec(rng, max_segments=4, max_channels=5, wide_p=0.06):
     g = 'Group'
     names = {'/': [], fmt.quote_path(g): [g]}
-    nch = rng.randint(1, 5)
+    nch = rng.randint(1, max_channels)
     nbuf = rng.choice([1, 1, 2, 3])
     widths = [rng.choice([1, 2, 3, 4, 6, 8, 9, 12, 16, 24]) for _ in range(nbuf)]
+    if rng.random() < wide_p:
+        # a wide row (hundreds of channels acquired together): byte offsets beyond 255 and 511
+        widths[rng.randrange(nbuf)] = rng.choice([255, 256, 257, 300, 513, 700])
     chans = []
     for i in range(nch):
         p = fmt.quote_path(g, 'Channel%d' % i)
@@ -54,6 +57,8 @@ def gen_daqmx_spec(rng, max_segments=4):
                 cands = [t for t in DTYPES if fmt.size_of(t) <= widths[b]]
                 t = rng.choice(cands)
                 off = rng.randint(0, widths[b] - fmt.size_of(t))
+                if widths[b] > 200 and rng.random() < 0.6:
+                    off = rng.randint(max(0, min(250, widths[b] - fmt.size_of(t))), widths[b] - fmt.size_of(t))
             scalers.append({'type': t, 'buffer': b, 'offset': off, 'bitmap': rng.choice([0, 0, 1, 255]), 'id': sid})
         chans.append({'path': p, 'kind': kind, 'scalers': scalers, 'multi': multi})
     spec = {'version': rng.choice([4712, 4713]), 'names': names, 'segments': []}
@@ -139,11 +144,11 @@ def _dims_of(si):
     return _daqmx_dims([(p, h, i) for (p, h, i) in si.active if h])
 
 
-def maybe_daqmx_world(rng, p):
+def maybe_daqmx_world(rng, p, **kw):
     if rng.random() >= p:
         return None
     for _ in range(10):
-        spec = gen_daqmx_spec(rng)
+        spec = gen_daqmx_spec(rng, **kw)
         if spec is None:
             continue
         try:
@@ -163,7 +168,15 @@ def generate(rng, tier):
     reqs = [r for r in reqs if r['op'] == 'read_data'][:40]
     for r in reqs:
         r['scaled'] = False
-    return {'spec': spec, 'ops': reqs, 'cuts': None, 'short_seed': rng.getrandbits(32) if rng.random() < 0.3 else None}
+    cuts = None
+    last = w.segs[-1]
+    lo, n = max(4, last.pos + 1), len(w.data)
+    if n - lo > 1500:
+        # wide rows: every byte of the last segment's metadata, then a seeded sample of the raw data offsets
+        cs = set(range(lo, min(n, last.data_pos + 8))) | set(range(max(lo, n - 40), n))
+        cs |= set(rng.sample(range(last.data_pos, n), min(500, n - last.data_pos)))
+        cuts = sorted(cs)
+    return {'spec': spec, 'ops': reqs, 'cuts': cuts, 'short_seed': rng.getrandbits(32) if rng.random() < 0.3 else None}
 
 
 def daqmx_sig(spec):
